@@ -181,7 +181,7 @@ func checkC02(sc *Scenario, st *Stats) *Violation {
 }
 
 func genC02(t *rapid.T) *Scenario {
-	sc := GenProgScenario(t, ProgCfg{Standard: true})
+	sc := genStandard(t)
 	n := 6
 	if tierIsThorough() {
 		n = 16
